@@ -214,6 +214,17 @@ class FnAlias:
             self._heuristic = bool(ts)
         return ts
 
+    def passes_through(self, e):
+        """e is a call to a package function that can return (part of) one of its arguments uncopied (summary `returns` <= 1)
+        and that argument is itself an access path: f(obj[a:b]) hands the caller's items through."""
+        if isinstance(e, ast.GeneratorExp) or not isinstance(e, ast.Call):
+            return False
+        for fid in [t[1] for t in self.cg.resolve(e.func, self.fn) if t[0] == 'func']:
+            for pname, argexpr in self.bind_args(e, fid):
+                if self.s.returns.get((fid, pname), 9) <= 1 and not isinstance(argexpr, set) and _is_access_path(argexpr):
+                    return True
+        return False
+
     def bind_args(self, call, fid):
         """[(param name, arg expr)] for a call to package function fid."""
         fn = self.repo.functions[fid]
@@ -339,7 +350,7 @@ class FnAlias:
                     for r in sorted(self.roots(allargs)):
                         direct = any(r2 == r and k == 0 for v in argvals + list(kwvals.values()) for r2, k in v)
                         srcs = [a for a, v in zip(list(c.args) + [k.value for k in c.keywords], argvals + list(kwvals.values()))
-                                if any(r2 == r and k <= 1 for r2, k in v) and _is_access_path(a)]
+                                if any(r2 == r and k <= 1 for r2, k in v) and (_is_access_path(a) or self.passes_through(a))]
                         self.escapes.append((c, r, '%s.%s(%s)' % (c.func.value.id, m, ', '.join(ast.unparse(a) for a in c.args)),
                                              'ref' if direct else 'shallow', bool(srcs), c.func.value.id))
                     env[c.func.value.id] = set(env.get(c.func.value.id, ())) | self.shallow_of(allargs)
@@ -406,7 +417,7 @@ class FnAlias:
             elif isinstance(t.value, ast.Name) and val:
                 for r in sorted(self.roots(val)):
                     direct = any(r2 == r and k == 0 for r2, k in val)
-                    near = any(r2 == r and k <= 1 for r2, k in val) and hasattr(node, 'value') and _is_access_path(node.value)
+                    near = any(r2 == r and k <= 1 for r2, k in val) and hasattr(node, 'value') and (_is_access_path(node.value) or self.passes_through(node.value))
                     self.escapes.append((node, r, 'store %s = %s' % (ast.unparse(t), ast.unparse(node.value)[:50] if hasattr(node, 'value') else '?'),
                                          'ref' if direct else 'shallow', near, t.value.id))
                 env[t.value.id] = set(env.get(t.value.id, ())) | self.shallow_of(val)
